@@ -114,6 +114,13 @@ func c03Run(c *fw.Ctx) {
 		for i := range identityHeaders {
 			chosen[i] = x.Choose("hdr:"+identityHeaders[i], len(variants))
 		}
+		sess := sess
+		if x.Choose("session-groups", 2) == 1 {
+			// a session without groups (the normal state for upstreams without a group rule)
+			cp := *sess
+			cp.Groups = nil
+			sess = &cp
+		}
 		sealed := e.Seal(sess)
 		path := "/private/page"
 		if handling == "skip-auth" {
@@ -143,7 +150,7 @@ func c03Run(c *fw.Ctx) {
 		}
 		caseDesc := func() map[string]interface{} {
 			d := map[string]interface{}{"handling": handling, "client_identity_headers": desc, "cookie_layout": layout.Name, "connection_nominates": conn,
-				"inject_request_headers": inj.name, "status": resp.Status, "raw_request": strings.ReplaceAll(raw, sealed, "<sealed-session>")}
+				"inject_request_headers": inj.name, "session_groups": sess.Groups, "status": resp.Status, "raw_request": strings.ReplaceAll(raw, sealed, "<sealed-session>")}
 			if len(resp.Hits) > 0 {
 				h := resp.Hits[0].Header.Clone()
 				for k, vs := range h {
@@ -242,7 +249,7 @@ func init() {
 		Level: "exploration",
 		Rule: "full product, as raw HTTP/1.1 bytes to a real net/http server in front of the real proxy chain, recorded at a backend behind the real reverse proxy: " +
 			"for each of the four identity headers a client variant {absent, canonical, lower-case sent twice (thorough: mixed case, empty value)} x 10 Cookie header layouts (session cookie only/first/middle/last, two session cookies, prefix and suffix look-alike names, quoted values, separate Cookie lines, no space, '=' in values) " +
-			"x handling {authenticated, skip-auth path} x Connection header {plain, nominating identity headers} x inject_request_headers {none, unrelated, colliding with an identity header}; " +
+			"x handling {authenticated, skip-auth path} x session groups {two, none} x Connection header {plain, nominating identity headers} x inject_request_headers {none, unrelated, colliding with an identity header}; " +
 			"oracle at the backend: authenticated => the three identity headers exactly once with the session's values and no access-token header (option off); skip-auth => all four absent; the session cookie never arrives; every other cookie arrives with the same name and value; " +
 			"distinct_nontrivial = distinct (handling, layout, inject, connection, client header variants) cases that were forwarded",
 		Assumptions:    []string{"pass_access_token cannot be enabled through the YAML options (parseOptionsConfig does not copy it), so only the 'disabled' half of that clause is exercised", "preflight skipping likewise cannot be configured"},
